@@ -966,6 +966,16 @@ namespace {
                             key += std::to_string(oc.branch);
                             key += ";";
                         }
+                    // cluster by outcome log AND by the actual final state (rounded), so that
+                    // branches are visible even where no outcome is logged
+                    {
+                        char buf[64];
+                        key += "|";
+                        for (const auto& a : s2.verifState()) {
+                            snprintf(buf, sizeof buf, "%.6f,%.6f;", a.real() + 0.0, a.imag() + 0.0);
+                            key += buf;
+                        }
+                    }
                     if (!counts.count(key)) {
                         std::ostringstream st;
                         printState(st, s2);
@@ -976,7 +986,8 @@ namespace {
                 out << "{\"repeat\":" << repeatK << ",\"branches\":[";
                 bool first = true;
                 for (auto& kv : counts) {
-                    out << (first ? "" : ",") << "{\"key\":" << jstr(kv.first) << ",\"count\":" << kv.second
+                    out << (first ? "" : ",") << "{\"key\":" << jstr(kv.first.substr(0, kv.first.find('|')))
+                        << ",\"count\":" << kv.second
                         << "," << rep[kv.first] << "}";
                     first = false;
                 }
